@@ -81,6 +81,20 @@ func genC03(t *rapid.T) c03Case {
 			c.Profile.EmptyLevels = append(c.Profile.EmptyLevels, l)
 		}
 	}
+	// names listed but not defined may stand anywhere in a level list
+	c.Profile.ListOrder = map[string][]string{}
+	for _, l := range levels[:3] {
+		var names []string
+		for _, v := range c.Profile.Validations {
+			if v.Level == l {
+				names = append(names, v.Name)
+			}
+		}
+		names = append(names, c.Profile.Undefined[l]...)
+		if len(names) > 1 {
+			c.Profile.ListOrder[l] = rapid.Permutation(names).Draw(t, "listOrder")
+		}
+	}
 	for _, v := range c.Profile.Validations {
 		v.Body.MarkPolarity(m.Pos)
 	}
